@@ -1,7 +1,7 @@
 (* C03 — A restart changes nothing observable.
    Only statements, each closed by [exact] of a lemma proved in Proofs/, and Print Assumptions. *)
-From DV Require Import Base.Prelude Model.Persist Model.Heads Model.IDs Model.MapLog
-     Proofs.Persist Proofs.IDs Proofs.MapLog Proofs.Restart Proofs.Heads.
+From DV Require Import Base.Prelude Model.Persist Model.Heads Model.IDs Model.MapLog Model.MapLogV
+     Proofs.Persist Proofs.IDs Proofs.MapLog Proofs.Restart Proofs.Heads Proofs.MapLogV.
 Local Open Scope N_scope.
 
 (* ---- repos, version DAG, commit flags, instances ---- *)
@@ -202,6 +202,38 @@ Theorem C03_maplog_replay_refuted :
   mp_splits (replay mp_empty (snd (run_ops true mp_empty ops))) = [(7, 11, 21, 22); (7, 11, 21, 22)].
 Proof. exact maplog_replay_refuted. Qed.
 Print Assumptions C03_maplog_replay_refuted.
+
+(* Round 4, a DAG of versions (Model.MapLogV): mutations carry their version, a version's entries
+   and log are its own, lookups go to the nearest ancestor that wrote, a new version sees its
+   ancestors'.  For EVERY ancestry table (any DAG), every history of merges, cleaves and supervoxel
+   splits (op_ok) at any versions in any interleaving, each split logged once: the family start-up
+   replays from the per-version logs answers, through ANY ancestry, every supervoxel's label and the
+   split record list (GET supervoxel-splits) exactly as the running server's. *)
+Theorem C03_maplog_replay_versions : forall ancs ops, forallb (fun vo => op_ok (snd vo)) ops = true ->
+  let '(st, lg) := vrun false ancs ([], []) ops in
+  forall anc, (forall sv, vmapped (vreplay lg) anc sv = vmapped st anc sv) /\ vsplits (vreplay lg) anc = vsplits st anc.
+Proof. exact vmaplog_replay. Qed.
+Print Assumptions C03_maplog_replay_versions.
+
+(* as the code stood (split logged twice) the labels are rebuilt at every version all the same *)
+Theorem C03_maplog_replay_versions_partial : forall ancs ops, forallb (fun vo => op_ok (snd vo)) ops = true ->
+  let '(st, lg) := vrun true ancs ([], []) ops in
+  forall anc sv, vmapped (vreplay lg) anc sv = vmapped st anc sv.
+Proof. exact vmaplog_replay_mapping. Qed.
+Print Assumptions C03_maplog_replay_versions_partial.
+
+(* non-vacuity and the shape of the answers: chain 1 <- 2 <- 3 and a sibling 4 of 3 *)
+Example C03_maplog_versions_example :
+  forallb (fun vo => op_ok (snd vo)) vx_ops = true /\
+  let '(st, lg) := vrun false vx_ancs ([], []) vx_ops in
+  map (vmapped st [3; 2; 1]) [11; 12; 21; 22; 23] = [0; 30; 10; 10; 23] /\
+  map (vmapped (vreplay lg) [3; 2; 1]) [11; 12; 21; 22; 23] = [0; 30; 10; 10; 23] /\
+  map (vmapped st [4; 2; 1]) [11; 12; 21; 23; 24] = [0; 0; 10; 10; 10] /\
+  vsplits st [4; 2; 1] = [(9, 12, 23, 24); (7, 11, 21, 22)] /\
+  vsplits (vreplay lg) [4; 2; 1] = [(9, 12, 23, 24); (7, 11, 21, 22)] /\
+  vsplits st [3; 2; 1] = [(7, 11, 21, 22)] /\ vsplits st [1] = [].
+Proof. exact vmaplog_example. Qed.
+Print Assumptions C03_maplog_versions_example.
 
 (* ---- reloaded label maxima ---- *)
 Theorem C03_maxlabel_reload : forall s, l_pmaxrepo s = Some (l_maxrepo s) ->
